@@ -188,6 +188,9 @@ def finish(mod, check_id, tier, seed, cases, records, worker_fail, wall):
                      f" [{fid}; {len(items)} occurrence(s) this run]")
     replay_dir = os.path.join(boot.VERIF, "evidence", "replays")
     os.makedirs(replay_dir, exist_ok=True)
+    for old in os.listdir(replay_dir):
+        if old.startswith(check_id + "-"):
+            os.remove(os.path.join(replay_dir, old))
     seen_cases = set()
     nprinted = 0
     for case_id, v in new:
@@ -205,6 +208,12 @@ def finish(mod, check_id, tier, seed, cases, records, worker_fail, wall):
             lines.append(f"VIOLATION property={check_id} replay={path}")
             lines.append(f"  clause={v.get('clause')} :: {str(v.get('msg'))[:300]}")
             nprinted += 1
+    if new:
+        hist = Counter((v.get("clause"), (v.get("witness") or {}).get(
+            "mechanism")) for _, v in new)
+        for (cl, mech), cnt in hist.most_common(20):
+            lines.append(f"  new-violation clause={cl} mechanism={mech} "
+                         f"count={cnt}")
     if len(seen_cases) > nprinted:
         lines.append(f"  ... and {len(seen_cases) - nprinted} more violating "
                      f"cases (replays written)")
